@@ -14,14 +14,42 @@ func (e *Exec) bufSlice(p Ptr) Slice {
 	return p.Obj.Cells[p.Off].(Slice)
 }
 
+// bufAppend mirrors (*bytes.Buffer).grow + copy: bytes are written in place while the backing array has room, so slices
+// handed out earlier by Bytes() alias the buffer exactly as in the runtime; a full buffer moves to a new array
+// (first allocation 64 bytes, then max(2*cap, len+n) rounded up to a malloc size class).
 func (e *Exec) bufAppend(p Ptr, more []*sym.Term) {
 	s := e.bufSlice(p)
-	var all []*sym.Term
-	if s.Len > 0 {
-		all = append(all, e.bytesOf(s)...)
+	n := len(more)
+	if n == 0 {
+		return
 	}
-	all = append(all, more...)
-	e.setCell(p.Obj, p.Off, e.newByteSlice(all))
+	if s.Obj != nil && s.Cap-s.Len >= n {
+		for i, t := range more {
+			e.setCell(s.Obj, s.Off+s.Len+i, t)
+		}
+		s.Len += n
+		e.setCell(p.Obj, p.Off, s)
+		return
+	}
+	newCap := 64
+	if s.Obj != nil || n > 64 {
+		newCap = 2 * s.Cap
+		if s.Len+n > newCap {
+			newCap = s.Len + n
+		}
+		newCap = roundupsize(newCap)
+	}
+	o := e.newObject(newCap, "bytes.Buffer.buf")
+	for i := 0; i < newCap; i++ {
+		o.Cells[i] = e.byteConst(0)
+	}
+	for i := 0; i < s.Len; i++ {
+		o.Cells[i] = s.Obj.Cells[s.Off+i]
+	}
+	for i, t := range more {
+		o.Cells[s.Len+i] = t
+	}
+	e.setCell(p.Obj, p.Off, Slice{Obj: o, Off: 0, Len: s.Len + n, Cap: newCap, Stride: 1})
 }
 
 func init() {
@@ -71,7 +99,9 @@ func init() {
 	})
 	reg("(*bytes.Buffer).Reset", func(e *Exec, fn *ssa.Function, a []Value) Value {
 		p := a[0].(Ptr)
-		e.setCell(p.Obj, p.Off, Slice{})
+		s := e.bufSlice(p)
+		s.Len = 0 // Reset keeps the backing array (later writes overwrite what earlier Bytes() results still see)
+		e.setCell(p.Obj, p.Off, s)
 		return nil
 	})
 	// binary.Write for fixed-size integers (the only use in the library), any io.Writer
